@@ -67,18 +67,7 @@ fn serialize_range_mappings(sm: &SourceMap) -> Option<String> {
     let mut rmi_data = Vec::<u8>::new();
 
     for (idx, token) in sm.tokens().enumerate() {
-        if token.is_range() {
-            had_rmi = true;
-            empty = false;
-
-            let num = idx - idx_of_first_in_line;
-
-            rmi_data.resize(rmi_data.len() + 2, 0);
-
-            let rmi_bits = rmi_data.view_bits_mut::<Lsb0>();
-            rmi_bits.set(num, true);
-        }
-
+        // Finish the previous lines before recording anything for this token's line.
         while token.get_dst_line() != prev_line {
             if had_rmi {
                 encode_rmi(&mut buf, &rmi_data);
@@ -89,6 +78,22 @@ fn serialize_range_mappings(sm: &SourceMap) -> Option<String> {
             prev_line += 1;
             had_rmi = false;
             idx_of_first_in_line = idx;
+        }
+
+        if token.is_range() {
+            had_rmi = true;
+            empty = false;
+
+            let num = idx - idx_of_first_in_line;
+
+            // Make sure the bit buffer is large enough to hold bit `num`.
+            let needed_bytes = num / 8 + 1;
+            if rmi_data.len() < needed_bytes {
+                rmi_data.resize(needed_bytes, 0);
+            }
+
+            let rmi_bits = rmi_data.view_bits_mut::<Lsb0>();
+            rmi_bits.set(num, true);
         }
     }
     if empty {
